@@ -5,6 +5,7 @@ import genprog
 import pstreams2 as P2
 import pstreams3 as P3
 import pstreams4 as P4
+import pstreams5 as P5
 from genprog import bn, Gen, Scope, render
 
 T, F = 'সত্য', 'মিথ্যা'
@@ -205,7 +206,8 @@ def c02_cases(rng, tier):
         cases.append({'src': prog(['নাম শূ;', 'যদি মিথ্যা {', '} অথবা যদি %s {' % c, '    দেখাও "ভিতরে";', '}', 'দেখাও "পরে";']), 'alone': None, 'kind': 'nonbool'})
     for src in P2.repeated_chain_programs(rng, 120 if tier != 'thorough' else 800):
         cases.append({'src': src, 'alone': None, 'kind': 'repeated-chain'})
-    for c in P3.special_float_chain_programs() + P3.chain_junction_programs(rng, 80 if tier != 'thorough' else 600) + P4.chain_block_shape_programs(rng, 150 if tier != 'thorough' else 1000) + P4.jump_only_branch_programs():
+    for c in P3.special_float_chain_programs() + P3.chain_junction_programs(rng, 80 if tier != 'thorough' else 600) + P4.chain_block_shape_programs(rng, 150 if tier != 'thorough' else 1000) + P4.jump_only_branch_programs() + \
+             P5.chain_then_jump_programs(rng, 60 if tier != 'thorough' else 400):
         cases.append(dict(c, alone=None))
     return cases
 
@@ -286,6 +288,7 @@ def c03_cases(rng, tier):
         cases.append({'src': src, 'kind': 'loop-depths', 'budget': 60000})
     cases += P3.nested_loop_return_programs(rng, 60 if tier != 'thorough' else 400)
     cases += P4.many_locals_programs(rng, 80 if tier != 'thorough' else 500)
+    cases += P5.jump_only_exit_programs(rng, 60 if tier != 'thorough' else 400)
     return cases
 
 
@@ -359,6 +362,7 @@ def c05_cases(rng, tier):
     cases += P2.callee_alloc_programs()
     cases += P3.closing_return_programs(rng, 80 if tier != 'thorough' else 500)
     cases += P4.higher_order_programs(rng, 80 if tier != 'thorough' else 500) + P4.self_tail_call_programs(rng, 40 if tier != 'thorough' else 300)
+    cases += P5.surplus_argument_programs(rng, 60 if tier != 'thorough' else 400)
     cases += P3.nested_loop_return_programs(rng, 20 if tier != 'thorough' else 100)
     return cases
 
@@ -463,6 +467,7 @@ def c06_cases(rng, tier):
     cases += P3.self_containing_programs(rng, 60 if tier != 'thorough' else 400)
     k4 = 60 if tier != 'thorough' else 400
     cases += P4.assignment_order_programs(rng, k4) + P4.expression_statement_programs(rng, k4) + P4.concat_nested_identity_programs(rng, k4) + P4.shadowed_scalar_index_programs()
+    cases += P5.held_while_callee_allocates_programs() + P5.multi_level_assignment_programs(rng, 20 if tier != 'thorough' else 150)
     return cases
 
 
@@ -499,6 +504,7 @@ def c16_cases(rng, tier):
     for src in P2.concat_fresh_programs(rng, 60):
         cases.append({'src': src, 'kind': 'concat-fresh'})
     cases += P4.expression_statement_programs(rng, 60 if tier != 'thorough' else 400)
+    cases += P5.multi_level_assignment_programs(rng, 40 if tier != 'thorough' else 300) + P5.held_while_callee_allocates_programs()
     return cases
 
 
@@ -655,6 +661,7 @@ def c13_cases(rng, tier):
                 else:
                     cases.append({'src': prog(body), 'kind': 'fault stale-name'})
     cases += P3.negative_fraction_write_programs() + P4.statement_fault_programs()
+    cases += P5.string_newline_fault_programs()
     # every built-in with wrong argument counts / types, in two plain positions
     for fk, fe in (BUILTIN_FAULTS if tier == 'thorough' else rng.sample(BUILTIN_FAULTS, 160)):
         cases.append({'src': prog(pre + ['ফাং ফ() {', '} ফেরত;', 'দেখাও "১";', 'নাম ফল = %s;' % fe, 'দেখাও _টাইপ(ফল);', 'দেখাও "পরে";']), 'kind': 'fault builtin-args'})
@@ -844,7 +851,7 @@ def c15_cases(rng, tier):
                       'files': [('a.pakhi', prog(pre + ['মডিউল খ = "b.pakhi";', 'দেখাও "a";'])), ('b.pakhi', prog(pre + ['মডিউল গ = "a.pakhi";', 'দেখাও "b";']))], 'kind': 'inner-cycle'})
         cases.append({'src': prog(['মডিউল ক = "a.pakhi";', 'দেখাও "main";']),
                       'files': [('a.pakhi', prog(pre + ['মডিউল খ = "b.pakhi";', 'দেখাও "a";'])), ('b.pakhi', prog(pre + ['মডিউল গ = "c.pakhi";', 'দেখাও "b";'])), ('c.pakhi', prog(pre + ['মডিউল ঘ = "b.pakhi";', 'দেখাও "c";']))], 'kind': 'inner-cycle'})
-    cases += P3.import_graph_oddities() + P3.module_alias_programs() + P4.reimport_programs() + P4.unfinished_module_programs()
+    cases += P3.import_graph_oddities() + P3.module_alias_programs() + P4.reimport_programs() + P4.unfinished_module_programs() + P5.module_ending_with_import_programs()
     for stmt in P4.IMPORT_FORMS2:
         cases.append({'src': prog(['দেখাও "আগে";', stmt, 'দেখাও "পরে";']), 'files': [('mod.pakhi', 'দেখাও "mod";\n')], 'kind': 'import-forms'})
     return cases
@@ -888,7 +895,7 @@ def c14_cases(rng, tier):
                            'দেখাও %s/ছায়া(৩, ৪);' % aliases[i], 'দেখাও %s/মান;' % aliases[i]]
         main_lines += ['দেখাও মান;', 'মান = ৫;', 'দেখাও %s/মান;' % aliases[0], 'দেখাও তালিকা;' if rng.random() < 0.3 else 'দেখাও "শেষ";', 'দেখাও _রিড-ফাইল(_ডাইরেক্টরি + "root.txt");']
         cases.append({'src': prog(main_lines), 'files': mods + datafiles, 'kind': 'modules', 'main': 'app/main.pakhi'})
-    cases += P3.module_alias_programs() + [c for c in P3.import_graph_oddities() if c['kind'] in ('chain-slash-alias', 'diamond-slash-alias', 'case-distinct-files')] + P4.reimport_programs()
+    cases += P3.module_alias_programs() + [c for c in P3.import_graph_oddities() if c['kind'] in ('chain-slash-alias', 'diamond-slash-alias', 'case-distinct-files')] + P4.reimport_programs() + P5.module_ending_with_import_programs()
     return cases
 
 
@@ -940,6 +947,7 @@ def c19_cases(rng, tier):
     fl1, fl2 = P3.free_list_history_p1(), P3.free_list_p2()
     for a_ in fl1:
         for b_ in fl2: cases.append({'p1': prog(a_), 'p2': prog(b_), 'kind': 'compose free-list-history', 'budget': 60000})
+    cases += P5.shared_module_fragments()
     zero_p1 = [['নাম গো = ৩;', 'লুপ {', '    দেখাও গো;', '    যদি গো == ০ {', '        থামাও;', '    }', '    গো = গো - ১;', '} আবার;'], ['দেখাও ০;'], ['দেখাও -০;'], ['_দেখাও [০];', 'দেখাও "";'], ['নাম আর = @{"ক" -> ১,};', '_দেখাও আর;', 'দেখাও "";']]
     zero_p2 = [['দেখাও ০ * -৫;', 'দেখাও [০ * -৫];'], ['দেখাও ০;', 'দেখাও [-০, ০];'], ['নাম দ্বির = @{"ক" -> ১,};', 'দেখাও [দ্বির, [দ্বির]];', '_দেখাও দ্বির;', 'দেখাও [দ্বির];']]
     for a_ in zero_p1:
